@@ -437,6 +437,11 @@ def build(repo=None):
         def idx_hook(e, s, v, args, kw, nd):
             return None
 
+        def on_store(e_, s_, cont_, key_, v_):
+            if isinstance(cont_, Ref) and cont_.h == lookup.h:
+                s_.ghost["stored_checker"] = v_
+
+        eng.method_models["__on_dict_store__"] = on_store
         for s1, o in run_with_dictlit(eng, ti.body, st):
             paths += 1
             me = s1.get(self_ref)
@@ -451,6 +456,14 @@ def build(repo=None):
             h = me.attrs["hash"].t
             if kind == "none":
                 eng.oblige(s1, "C11:Typechecker:None-maps-to-hash-0", h == z3.StringVal("0"))
+                # the registered decorator is the identity CALLABLE `lambda x, *_, **__: x` (never None itself: jaxtyped(typechecker=None) is the old-style
+                # wrapper, which binds the arguments, opens a context and does not look at a no_type_check mark on the wrapper)
+                sv = s1.ghost.get("stored_checker")
+                lam = sv.node if isinstance(sv, Fn) and isinstance(sv.node, ast.Lambda) else None
+                ident = (lam is not None and len(lam.args.args) + len(lam.args.posonlyargs) >= 1 and isinstance(lam.body, ast.Name)
+                         and lam.body.id == (lam.args.posonlyargs + lam.args.args)[0].arg and lam.args.vararg is not None and lam.args.kwarg is not None)
+                eng.oblige(s1, "C19:Typechecker:None-registers-an-identity-decorator-callable(not-None-itself)", z3.BoolVal(bool(ident)))
+                s1.obl[-1]["serves"] = ["C19", "C11", "C10"]
             else:
                 eng.oblige(s1, "C11:Typechecker:hash-is-md5-of-the-checker-string", h == md5(tcs))
             eng.oblige(s1, "C11:Typechecker:lookup-gains-exactly-the-entry-for-its-own-hash", z3.And(L.d == z3.Store(l0.d, h, True), z3.Store(L.m, h, l0.m[h]) == z3.Store(l0.m, h, l0.m[h]) if False else L.d[h]))
